@@ -361,8 +361,8 @@ func RunTLC(env *Env, o TLCOpts) *TLCResult {
 		if strings.HasPrefix(line, "Error: Action property ") && strings.HasSuffix(line, " is violated.") {
 			res.Violated = strings.TrimSuffix(strings.TrimPrefix(line, "Error: Action property "), " is violated.")
 		}
-		if strings.HasPrefix(line, "Error: Temporal properties were violated") {
-			res.Violated = "temporal"
+		if strings.HasPrefix(line, "Error: Temporal propert") && strings.Contains(line, "violated") {
+			res.Violated = "temporal:" + strings.TrimSpace(strings.TrimSuffix(strings.TrimPrefix(line, "Error: Temporal property"), "was violated."))
 		}
 		if strings.HasPrefix(line, "Error: Postcondition ") {
 			res.Violated = "postcondition"
